@@ -8,10 +8,10 @@ CB = 16.0          # the constant of every bound (fixed in DESIGN.md before meas
 GROWTH_MAX = 64.0  # cases whose unpivoted elimination growth exceeds this are counted, not judged
 QUICK_SIZES = [1, 2, 3, 4, 5, 7, 8, 9, 12, 16, 17, 33]
 THOROUGH_SIZES = list(range(1, 13)) + [15, 16, 17, 24, 31, 32, 33, 63, 64, 65]
-FAMN = {0: 'diagonally dominant', 1: 'row-permuted diagonally dominant', 2: 'unimodular integer', 3: 'Householder*diag*Householder cond 10', 4: 'Householder*diag*Householder cond 1000'}
+FAMN = {6: 'diagonally dominant with first and last rows exchanged (singular leading blocks)', 5: 'Householder*diag*Householder cond 1e5', 0: 'diagonally dominant', 1: 'row-permuted diagonally dominant', 2: 'unimodular integer', 3: 'Householder*diag*Householder cond 10', 4: 'Householder*diag*Householder cond 1000'}
 
-def source(which, n, ty, nseeds):
-    return '#define WHICH %d\n#define NN %d\n#define TY %s\n#define NSEEDS %d\n#line 1 "linalg.cpp"\n%s' % (which, n, ty, nseeds, open(HARNESS).read())
+def source(which, n, ty, nseeds, quick=False):
+    return '#define WHICH %d\n#define NN %d\n#define TY %s\n#define NSEEDS %d\n%s#line 1 "linalg.cpp"\n%s' % (which, n, ty, nseeds, '#define QUICKTIER 1\n' if quick else '', open(HARNESS).read())
 
 def plan(which, tr, sd):
     """(size, type, cfg) triples: quick rotates the six configurations over the sizes so that every size meets two
@@ -19,10 +19,12 @@ def plan(which, tr, sd):
     cfgs = quick_grid() if tr == 'quick' else thorough_grid()
     jobs = []
     if tr == 'quick':
-        for k, n in enumerate(QUICK_SIZES):
+        sizes = QUICK_SIZES + ([65] if which == 11 else [])       # block LU switches composition above 64
+        for k, n in enumerate(sizes):
             for r in range(2):
                 cfg = cfgs[(k * 2 + r + sd + which) % len(cfgs)]
                 if n >= 33 and cfg.opt == '-O0': cfg = cfgs[(k * 2 + r + sd + which + 1) % len(cfgs)]
+                if n > 33 and r == 1: continue
                 jobs.append((n, 'double' if (k + r) % 2 == 0 else 'float', cfg))
     else:
         for n in THOROUGH_SIZES:
@@ -37,7 +39,7 @@ def run_plan(which, tr, sd, rep):
     nseeds = 3 if tr == 'quick' else 6
     def job(j):
         n, ty, cfg = j
-        exe, log = compile_cpp(source(which, n, ty, nseeds), cfg)
+        exe, log = compile_cpp(source(which, n, ty, nseeds, tr == 'quick'), cfg)
         if exe is None: return (j, None, log)
         return (j, run_exe(exe, timeout=3000), log)
     out = []
